@@ -613,7 +613,9 @@ fn gen_actor(p: &Profile, rng: &mut Rng) -> Case {
     }
     beh.started = vec![st0.clone()];
     if g.rng.chance(p.work, 20) {
-        beh.stopped.push(Act::Work(g.rng.below(3) as u64));
+        // now and then longer than any handler timeout of the family: the timeout is for handlers only
+        let d = if g.rng.chance(1, 3) { 6 + g.rng.below(4) } else { g.rng.below(3) };
+        beh.stopped.push(Act::Work(d as u64));
     }
     if g.rng.chance(p.work, 10) {
         beh.tick.push(Act::Work(g.rng.below(3) as u64));
@@ -630,7 +632,12 @@ fn gen_actor(p: &Profile, rng: &mut Rng) -> Case {
     let mut cancel = None;
     let mut fault_tag = "none";
     if g.rng.chance(p.faults, 10) {
-        match g.rng.below(6) {
+        match g.rng.below(if stream { 8 } else { 6 }) {
+            6 | 7 => {
+                // a stream item handler panics
+                beh.item.push(Act::Panic);
+                fault_tag = "item_panic";
+            }
             0 => {
                 beh.started = vec![vec![Act::Fail]];
                 fault_tag = "start_err";
@@ -935,8 +942,8 @@ fn gen_small(rng: &mut Rng) -> Case {
         });
     }
     beh.started = vec![st0.clone()];
-    if rng.chance(1, 5) {
-        beh.stopped.push(Act::Work(1));
+    if rng.chance(1, 4) {
+        beh.stopped.push(Act::Work(if rng.chance(1, 2) { 1 } else { 4 }));
     }
     let mut timeout = None;
     let mut fail = false;
